@@ -61,6 +61,17 @@ def main():
     ctx.root = root
     level = getattr(mod, 'LEVEL', 'other')
     proof = mod.run(ctx) or None
+    if tier == 'thorough' and not replay:
+        import controls
+        nfix, failed = controls.run_fixture_controls(ctx)
+        ran, skipped = controls.run_mutant_controls(ctx, root)
+        ctx.extra['thorough'] = {'fixture_controls_run': nfix, 'fixture_controls_failed': failed, 'source_mutants_run': ran,
+                                 'source_mutants_not_applicable_to_this_tree': skipped,
+                                 'note': 'thorough = quick rules + positive controls: the rule functions are re-run over selftest/fixture '
+                                         '(one instance of every zero-count pattern) and over the source mutants registered for this property '
+                                         '(scratch copies of the analysed tree); a control that no longer fires is a violation'}
+        if fxu is not None and hasattr(mod, 'run_utils'):
+            mod.run_utils(ctx, fxu)
     known = R.load_known().get(prop, {})
     matched = []
     viol = []
